@@ -78,6 +78,14 @@ def render(seq, init):
     return "\n".join(lines) + "\n"
 
 
+CHAINS = [
+    "v = 0\nw = 0\nx = 0\ny = 0\nb = 0\nwhile true:\n    v = v + 2*w\n    w = w + x\n    x = x + 3*y\n    b = Bernoulli(p)\n    y = y + b\nend\n",
+    "w = 0\nx = 0\ny = 0\nwhile true:\n    w = w + x\n    x = x + y\n    y = y + p\nend\n",
+    "v = 1\nw = 0\nx = 0\ny = 0\nwhile true:\n    v = w\n    w = x\n    x = y\n    y = y + 1 {p} y\nend\n",
+    "x = 0\ny = 0\nz = p\nwhile true:\n    x = x + y\n    y = y + z\n    z = z*q\nend\n",
+]
+
+
 def cases(tier, seed):
     pm = P_STMTS + (P_STMTS_MORE if tier != "quick" else [])
     seqs = [[s] for s in pm]
@@ -92,6 +100,8 @@ def cases(tier, seed):
         for a, b in itertools.permutations(P_STMTS[:6], 2):
             seqs.append([a, b])
     out, seen = [], set()
+    for text in CHAINS:
+        out.append({"input": {"text": text, "goals": gen.goals_for(text, 1, 6) + ["x**2"]}, "N": 6})
     for seq in seqs:
         for ii, init in enumerate(INITS):
             if ii and len(seq) > 1 and tier == "quick" and seq[0] not in P_STMTS[:4]:
